@@ -106,7 +106,7 @@ pub fn one_lookup_opts(net: &mut Net, b: u64, n: usize, kind: &str, target: [u8;
         "answers": tr.answered.iter().map(|(e, t)| json!([e.addr.to_string(), (t - t_start) / MS])).collect::<Vec<_>>(),
         "answered": answered, "listed": listed, "seeds": seeds, "bearers": bearers, "reported": reported,
         "stores": tr.stores.iter().map(|a| a.to_string()).collect::<Vec<_>>(),
-        "timeout_ms": tmax / MS, "servers": net.servers.len()})
+        "timeout_ms": tmax / MS, "end_ms": (end - t_start) / MS, "servers": net.servers.len()})
 }
 
 /// One real client among fake peers whose ids are adversarially clustered around the target: they agree with it
@@ -175,6 +175,62 @@ fn crafted(b: &mut u64, seed: u64, out: &mut Out, rng: &mut Rng, rounds: u64) {
             out.line(&ev);
             *b += 1;
         }
+    }
+}
+
+/// The late informant: the client knows ten FAR peers; they list twenty-two NEAR peers, which answer at once and list each other.
+/// One far peer, S, answers late (well inside the request timeout) and is the only one that also lists Z, the node closest to
+/// the target. When the twenty closest candidates have all answered, the request to S is still outstanding: the lookup waits
+/// for it, learns Z and asks it.
+fn late_informant(b: &mut u64, seed: u64, out: &mut Out, rng: &mut Rng, rounds: u64) {
+    use crate::fakenet::*;
+    use crate::sim::*;
+    use std::net::SocketAddrV4;
+    for r in 0..rounds {
+        let target = rng.id();
+        let share = |bits: usize, rng: &mut Rng| -> [u8; 20] {
+            let mut id = rng.id();
+            for bit in 0..bits {
+                let (by, m) = (bit / 8, 0x80u8 >> (bit % 8));
+                id[by] = (id[by] & !m) | (target[by] & m);
+            }
+            let (by, m) = (bits / 8, 0x80u8 >> (bits % 8));
+            id[by] = (id[by] & !m) | (!target[by] & m);
+            id
+        };
+        let (nf, nn) = (10usize, 22usize);
+        let mut ids: Vec<[u8; 20]> = (0..nf).map(|_| share(4, rng)).collect();
+        ids.extend((0..nn).map(|_| share(12, rng)));
+        ids.push(share(30, rng)); // Z
+        let z = nf + nn;
+        let s_idx = r as usize % nf;
+        let delay_s = [120u64, 200, 320, 60][r as usize % 4];
+        let all: Vec<([u8; 20], SocketAddrV4)> = ids.iter().enumerate().map(|(i, id)| (*id, SocketAddrV4::new(fake_ip(i), 6881))).collect();
+        let far = crate::krpc::compact_nodes(&all[..nf]);
+        let near = crate::krpc::compact_nodes(&all[nf..z]);
+        let near_z = crate::krpc::compact_nodes(&all[nf..]);
+        let mut sim = Sim::new(seed ^ (r * 41 + 13), NetCfg { lat_min_ms: 5, lat_max_ms: 9, ..Default::default() });
+        sim.record = true;
+        let fnet = FakeNet::install(&mut sim, &ids, Box::new(move |me, m, w| {
+            let q = m.q.clone().unwrap_or_default();
+            if !(q == "find_node" || q == "get" || q == "get_peers" || q == "get_signed_peers") {
+                return Reply::Default;
+            }
+            if m.target() != Some(target) {
+                // the client's own bootstrap only ever learns the far peers
+                return Reply::One(lookup_reply(&far, me, m, w, &[], false), 5);
+            }
+            let (listed, delay) = if me.idx == s_idx { (&near_z, delay_s) } else if me.idx < 10 { (&near, 5) } else { (&near, 5) };
+            Reply::One(lookup_reply(listed, me, m, w, &[], q != "find_node"), delay)
+        }));
+        let boot: Vec<String> = fnet.bootstrap().into_iter().take(nf).collect();
+        let c = sim.add_node(NodeOpts::client(private_ip(3), &boot));
+        sim.run_for(2500);
+        let mut net = Net { sim, servers: vec![], clients: vec![c], boot: vec![], spec: NetSpec { servers: ids.len(), clients: 1, plan: "private".into(), join: "late_informant".into(), dead_bootstrap: 0, seed } };
+        let kind = ["closest", "find_node", "put", "peers"][r as usize % 4];
+        let ev = one_lookup(&mut net, *b, c, kind, target);
+        out.line(&ev);
+        *b += 1;
     }
 }
 
@@ -466,6 +522,7 @@ pub fn run(args: &Args) -> i32 {
         chain(&mut b, seed, &mut out, &mut rng, if thorough { 140 } else { 28 });
         mixed(&mut b, seed, &mut out, &mut rng, if thorough { 90 } else { 18 });
         slowtree(&mut b, seed, &mut out, &mut rng, if thorough { 600 } else { 80 });
+        late_informant(&mut b, seed, &mut out, &mut rng, if thorough { 80 } else { 12 });
     }
     out.finish();
     if let Some(p) = args.get("summary") {
